@@ -21,7 +21,7 @@ Local Open Scope Z_scope.
 
 Inductive cop :=
 (* map (unique) *)
-| MI (v : Z) | MIM (v : Z) | MV (id c : Z) | MVE (id c : Z) | MIV (id v c : Z) | MRA (v : Z) | MRX (v : Z) | ME
+| MI (v : Z) | MIM (v : Z) | MV (id c : Z) | MVE (id c : Z) | MIV (id v c : Z) | MRA (v : Z) | MRX (v : Z) | MRN (v : Z) | ME
 (* multimap *)
 | XI (v : Z) | XV (id c : Z) | XVG (id : Z) | XVE (id c : Z) | XE
 (* set / multiset *)
@@ -49,6 +49,7 @@ Definition cstep (dflt : Z) (o : cop) (vs : list Z) : list Z * tally :=
        match vs with [] => [] | _ => [(id, Z.of_nat (length vs))] end)
   | MRA v => (match vs with [] => [v] | x :: t => (x + v) :: t end, [])
   | MRX v => (match vs with [] => [v] | x :: t => Z.max x v :: t end, [])
+  | MRN v => (match vs with [] => [v] | x :: t => (2 * x + v) :: t end, [])      (* a non-commutative reducer: stored <- f(stored, offered) *)
   | ME | XE | SE | TE => ([], [])
   | XI v => (vs ++ [v], [])
   | XVG id =>
@@ -245,5 +246,6 @@ Example outcome_examples :
   outcome_ok 7 [] [MI 10; MI 20] [30] [] = false /\
   outcome_ok 7 [] [SIM 1; SIM 2; SIM 3] [0] [(2, 1)] = true /\ outcome_ok 7 [] [SIM 1; SIM 2] [0] [(1, 1); (2, 1)] = false /\
   outcome_ok 7 [1; 2] [XE] [] [] = true /\ outcome_ok 7 [1; 2] [XE] [2] [] = false /\
-  outcome_ok 0 [] [CI 3; CI 2] [5] [] = true.
+  outcome_ok 0 [] [CI 3; CI 2] [5] [] = true /\
+  outcome_ok 7 [] [MRN 1; MRN 10; MRN 100] [124] [] = true /\ outcome_ok 7 [] [MRN 1; MRN 10; MRN 100] [221] [] = false.
 Proof. vm_compute. repeat split. Qed.
